@@ -114,8 +114,14 @@ CLAIMS['C16'] = dict(
     text='Encryption and decryption feed the hash callback the same struct filled from the same sources; the struct has no padding; roles of keygen/encrypt/decrypt are as the scheme requires. Equality of the two pairing values is bilinearity (C01) and is NOT decided.',
     design_ref='DESIGN.md 3/C16', note='structural agreement only')
 
+CLAIMS['C03'] = dict(
+    technique='static sibling cross-check: signature/qualifier comparison of architecture specialisations against the generic members (type-checked AST of asm vs portable configurations), forwarding-shape rule, must-write / may-read / flag-materialisation dataflow over the disassembled x86-64 and AArch64 routines, dispatch-table pairing',
+    category='other',
+    text='Partial claim (necessary conditions only): every specialisation has the interface of the generic member it replaces and forwards its operands in order; each assembly routine writes its whole output on every path, reads its whole inputs and nothing else, and materialises the carry/borrow it returns; dispatch alternatives are two versions of one routine with equal footprints. Bit-equality of the computed values across back ends is NOT decided (numerical equivalence needs execution or a solver).',
+    design_ref='DESIGN.md 9.6',
+    note='ARMv6-M assembly bodies not analysable here; trusted base clang integrated assembler + llvm-objdump')
+
 NA = {
- 'C03': 'bit-equality of assembly and C++ back ends over 2^768 inputs is a numerical equivalence: needs execution or a solver (other families); structural asm facts are decided under C17/C18/C20',
  'C13': 'acceptance/rejection is the value of a pairing-product equation; no structural clause beyond the sign/verify delegation decided under C14',
 }
 
